@@ -289,14 +289,16 @@ func ruleRunCoupled(c *chk.Ctx, owner string) {
 			fa, _ := st.Addr.(*ssa.FieldAddr)
 			_, fresh := fa.X.(*ssa.Alloc)
 			switch {
-			case f == stop:
+			case f == stop || (c.P.InExt(stop, f) && f != start):
+				// (the store may sit in a private helper of the stop function; the facts at the
+				// store are those established along every call chain into it)
 				s := c.F.At(st)
 				ok, why := s.Has(facts.NonNil, chk.PathOfVar(ownerType(c, owner), ownerCh(c, owner))), "guard"
 				_ = why
 				ok = ok && s.Has(facts.Held, ownerLock(c, owner))
 				c.Check(ok, "RUN.coupled", f, owner+" "+fv.Name()+" written at stop", st.Pos(), "written only on the guarded path (running) under the lock: first stop cause wins",
 					"written in the stop function outside the running guard: a later stop could overwrite the recorded state")
-			case f == start && owner == "server":
+			case (f == start || (start != nil && c.P.InExt(start, f))) && owner == "server":
 				c.Exists("RUN.coupled", f, owner+" "+fv.Name()+" written at start", st.Pos(), "written by the start function")
 			case fresh:
 				c.Exists("RUN.coupled", f, owner+" "+fv.Name()+" written in constructor", st.Pos(), "written into a freshly allocated owner")
@@ -317,10 +319,10 @@ func ruleRunCoupled(c *chk.Ctx, owner string) {
 		errF = c.M.CErr
 	}
 	if closeSite != nil {
-		q := ir.PathQuery{Goal: func(i ssa.Instruction) bool {
+		q := ir.PathQuery{Goal: c.P.LiftGoal(func(i ssa.Instruction) bool {
 			st, ok := i.(*ssa.Store)
 			return ok && chk.IsField(st.Addr, errF)
-		}}
+		}, 0)}
 		ok, _ := q.MustReach(closeSite)
 		c.Check(ok, "RUN.coupled", stop, owner+" cause recorded", closeSite.Pos(), "every path from Close records the stop cause", "a path from Close returns without recording the stop cause")
 	}
@@ -428,12 +430,13 @@ func ruleRunRestart(c *chk.Ctx) {
 	for _, n := range needs {
 		found := false
 		var pos token.Pos
-		ir.Instrs(start, func(ins ssa.Instruction) {
+		c.P.ExtInstrs(start, func(ins ssa.Instruction) {
 			if st, ok := ins.(*ssa.Store); ok && chk.IsField(st.Addr, n.f) && n.ok(st.Val) {
 				// must be on every path to the go statements: dominate every go in start
+				// (from inside a private helper — a "reset" method — as well)
 				dom := true
 				ir.Instrs(start, func(i2 ssa.Instruction) {
-					if g, ok := i2.(*ssa.Go); ok && !ir.InstrDominates(st, g) {
+					if g, ok := i2.(*ssa.Go); ok && !ir.InstrDominates(st, g) && !(st.Parent() != start && c.P.IDominates(st, g)) {
 						dom = false
 					}
 				})
